@@ -422,7 +422,7 @@ impl<'a> G<'a>
         v
     }
 
-    fn wop(&mut self, w: &[u32; ND], me: Option<Inst>) -> Option<WOp>
+    fn wop(&mut self, w: &[u32; ND], me: Option<Inst>, driver: bool) -> Option<WOp>
     {
         let k = self.r.weighted(w);
         let s = self.slot();
@@ -450,7 +450,7 @@ impl<'a> G<'a>
                 let parent = self.r.below(child as u64) as Slot;
                 WOp::Reparent(child, parent)
             }
-            x if x == D::Syscall as usize => crate::sysfam::gen_syscall(self.r)?,
+            x if x == D::Syscall as usize => { let o = crate::sysfam::gen_syscall(self.r)?; if !driver && matches!(o, WOp::DropSysRc(_)) { return None; } o }
             _ => return None,
         })
     }
@@ -521,8 +521,8 @@ impl<'a> G<'a>
             x if x == K::Kill as usize => Op::KillInst(self.target(me)),
             x if x == K::Probe as usize => Op::Probe,
             x if x == K::ReturnErr as usize => Op::ReturnErr,
-            x if x == K::Direct as usize => Op::Direct(self.wop(&self.c.d_tree.clone(), me)?),
-            x if x == K::Now as usize => Op::Now(self.wop(&self.c.d_tree.clone(), me)?),
+            x if x == K::Direct as usize => Op::Direct(self.wop(&self.c.d_tree.clone(), me, false)?),
+            x if x == K::Now as usize => Op::Now(self.wop(&self.c.d_tree.clone(), me, false)?),
             x if x == K::WrAdd as usize => { let k = *self.r.pick(&self.wr.clone()); let n = self.r.range(1, 3); let t: Vec<Trig> = (0..n).map(|_| self.any_trig()).collect(); Op::WrAdd(k, dedup(t)) }
             x if x == K::WrRemove as usize => { let k = *self.r.pick(&self.wr.clone()); let n = self.r.range(1, 3); let t: Vec<Trig> = (0..n).map(|_| self.any_trig()).collect(); Op::WrRemove(k, dedup(t)) }
             x if x == K::WrRun as usize => Op::WrRun(*self.r.pick(&self.wr.clone())),
@@ -674,7 +674,7 @@ pub fn generate(seed: u64, base: &Cfg) -> Program
                 }
                 continue;
             }
-            if let Some(wop) = g.wop(&w, None) { steps.push(Step::Direct(wop)); }
+            if let Some(wop) = g.wop(&w, None, true) { let gc_after = matches!(wop, WOp::DropSysRc(_)); steps.push(Step::Direct(wop)); if gc_after { steps.push(Step::Direct(WOp::Gc)); } }
             continue;
         }
         let n = g.r.range(g.c.ops_per_batch.0, g.c.ops_per_batch.1);
